@@ -70,6 +70,24 @@ RULES = {
         ('arith over aggregates', lambda: sel([target(ast.Add(SUM_A(), COUNT()), 'r')], 't'), 'accept'),
         ('agg order by', lambda: sel([target(col('b'))], 't', group_by=GB(col('b')),
                                      order_by=[ast.OrderBy(SUM_A(), ast.Ordering.DESC)]), 'accept'),
+        ('all targets aggregates, order by bare column', lambda: sel([target(COUNT(), 'n')], 't',
+                                                                     order_by=[ast.OrderBy(col('a'), ast.Ordering.ASC)]), 'reject'),
+        ('all targets aggregates, order by expression', lambda: sel([target(SUM_A(), 's1')], 't',
+                                                                    order_by=[ast.OrderBy(ast.Add(col('b'), const(1)), ast.Ordering.DESC)]), 'reject'),
+        ('all targets aggregates, order by aggregate', lambda: sel([target(COUNT(), 'n')], 't',
+                                                                   order_by=[ast.OrderBy(SUM_A(), ast.Ordering.ASC)]), 'accept'),
+        ('agg in WHERE under BETWEEN', lambda: sel([target(col('a'))], 't', where=ast.Between(SUM_A(), const(0), const(1))), 'reject'),
+        ('agg in WHERE as BETWEEN bound', lambda: sel([target(col('a'))], 't', where=ast.Between(col('a'), const(0), SUM_A())), 'reject'),
+        ('agg in FROM under BETWEEN', lambda: sel([target(col('a'))],
+                                                  from_clause=ast.From(ast.Between(SUM_A(), const(0), const(1)))), 'reject'),
+        ('agg grouping key under BETWEEN', lambda: sel([target(COUNT(), 'n')], 't',
+                                                       group_by=GB(ast.Between(SUM_A(), const(0), const(1)))), 'reject'),
+        ('agg of agg under BETWEEN', lambda: sel([target(func('count', ast.Between(SUM_A(), const(0), const(1))), 'r')], 't'), 'reject'),
+        ('mixed BETWEEN target', lambda: sel([target(ast.Between(col('b'), const(0), SUM_A()), 'r')], 't', group_by=GB(col('a'))), 'reject'),
+        ('having BETWEEN aggregate', lambda: sel([target(col('b'))], 't',
+                                                 group_by=ast.GroupBy([col('b')], ast.Between(SUM_A(), const(0), const(1000)))), 'accept'),
+        ('order by BETWEEN aggregate', lambda: sel([target(col('b'))], 't', group_by=GB(col('b')),
+                                                   order_by=[ast.OrderBy(ast.Between(SUM_A(), const(0), const(1000)), ast.Ordering.ASC)]), 'accept'),
         ('agg in WHERE subquery is fine', lambda: sel([target(col('a'))], 't',
                                                       where=ast.In(col('a'), sel([target(func('max', col('c')), 'mx')], 'u'))), 'accept'),
     ],
